@@ -76,6 +76,7 @@ Proof. exact e120_example. Qed.
      s_abort         : Abort(): stack emptied, m_on_complete cleared and THEN its callback run with
                        (false, {}); m_uids, m_uids_to_mute and the bad/split sets are kept; the request in
                        flight is dropped by the line.  A Start from inside THIS callback is accepted.
+     s_destroy       : ~DiscoveryAgent() = Abort(), then a new agent; (op ODestroy)
      a Start from inside the callback run by SendDiscovery is refused (m_on_complete still set).
    For EVERY history from the initial state, with arbitrary reply bytes: no modelled hazard; no Start is
    completed twice; every Start issued so far has been completed exactly once, except the one that owns
@@ -119,6 +120,16 @@ Theorem c11_abort :
     (on_complete (ag ss) = false -> events (s_abort ss) = events ss /\ next_id (s_abort ss) = next_id ss).
 Proof. exact abort_w. Qed.
 Print Assumptions c11_abort.
+
+(* destroying the agent while a discovery is in flight completes it once with (false, {})
+   (c11_sessions covers histories containing ODestroy: exactly once also then) *)
+Theorem c11_destroy :
+  forall ss : sess,
+    ag (s_destroy ss) = idle0 /\
+    (on_complete (ag ss) = true -> In (owner ss, false, []) (events (s_destroy ss))) /\
+    (on_complete (ag ss) = false -> events (s_destroy ss) = events ss /\ next_id (s_destroy ss) = next_id ss).
+Proof. exact destroy_w. Qed.
+Print Assumptions c11_destroy.
 
 (* a Start issued from inside the completion callback of a run that finished normally is refused and
    completed once with (false, {}), after the outer completion *)
